@@ -102,7 +102,8 @@ def unit_spellings(value_base, base):
 
 def geometry_sweep():
     """Every ordered pair (source form, destination form) x one quantity per unit."""
-    srcs = ['A', 'B', 'P'] + [['P', s] for s in P_SLICES]
+    # (a single source well written as a one-element list: what a list-addressed region hands out may be a copy)
+    srcs = ['A', 'B', 'P'] + [['P', s] for s in P_SLICES] + [['P', "[('A', 2)]"]]
     dsts = ['E', 'B', 'Q'] + [['Q', s] for s in Q_SLICES] + [['P', s] for s in P_SLICES] + ['P']
     qs = ['7 uL', '3 mg', '20 umol', '0.001 U']
     acts = []
